@@ -71,6 +71,10 @@ def collect_index_terms(fs, qcache, vcache):
                 idx = t.arg(1)
                 if idx.sort() == z3.IntSort() and not _contains_var(idx, vcache):
                     out[idx.get_id()] = idx
+                # integer array reads are index-valued in this code base (edge -> node, sorted position, ...):
+                # they are candidates for variables of the matching index sort
+                if kind == z3.Z3_OP_SELECT and t.sort() == z3.IntSort() and not _contains_var(t, vcache):
+                    out[t.get_id()] = t
             elif kind == z3.Z3_OP_UNINTERPRETED and t.num_args() > 0:
                 for a in t.children():
                     if a.sort() == z3.IntSort() and not _contains_var(a, vcache):
